@@ -22,7 +22,7 @@ META = {
     "ready": True,
     "level": "model_checking",
     "technique": "TLA+ spec of archive activation (declarative least fixpoint vs concurrent request/take protocol, all interleavings by TLC) + replay of every enumerated reference graph into the real linker, member set read from output markers, lld/GNU ld as cross-oracles",
-    "level_text": "TLC explores every interleaving of the request/take protocol for all reference graphs over three objects/archive members and two names (quick) plus -u roots, weak references, whole-archive members, and four-file chains (thorough): LoadedOnce, soundness and confluence to the least fixpoint; each configuration is replayed into the real wild (thin/grouped archives, --start-lib, 1-8 threads, seeded yields) and the loaded member set and error class are compared with the rule.",
+    "level_text": "TLC explores every interleaving of the request/take protocol for all reference graphs over three objects/archive members and two names (quick) plus -u roots, weak references, whole-archive members, and four-file chains (thorough): LoadedOnce, soundness and confluence to the least fixpoint; each configuration is replayed into the real wild (thin/grouped archives, --start-lib, 1-8 threads, seeded yields) and the loaded member set and error class are compared with the rule. Scaled replay: sampled configurations are re-linked with the referencing objects padded to > 10000 symbols so that the decisive non-weak reference is symbol number 4998..5001 / 9999..10001 of its object (the boundaries of wild's 5000-symbol resolution work items), same expectation.",
     "level_note": "Schedules of the real activation are sampled (thread counts; yield injection currently only perturbs the layout phase), only the model is exhaustive; trace validation of try_request_file_id needs the hooks listed in the final report. Bounds: <= 4 files, 2 names. Configurations where a COMMON symbol meets a lazy definition are judged by the property text (a COMMON is not a reference), not by ld/lld.",
     "engine": "tlc",
 }
@@ -104,6 +104,9 @@ def run(ctx):
         plan = [("mc/SymRes_c03_quick.cfg", 900, 2), ("mc/SymRes_c03_roots.cfg", 900, 1),
                 ("mc/SymRes_c03_weak.cfg", 2400, 16), ("mc/SymRes_c03_chain.cfg", 1200, 6)]
     cov = symres.run_plan(ctx, PROP, plan, ASPECTS, "both", oracle_known, skip_load_divergent=OWN)
+    pool = cov.pop("_pool", [])
+    cov["scaled_replay"] = symres.scaled_replay(ctx, PROP, pool, 3 if ctx.quick else 30, ASPECTS)
+    cov["traces_validated_against_impl"] += cov["scaled_replay"]["replayed"]
     trace_validation(ctx, cov)
     return {
         "level": "model_checking",
